@@ -180,6 +180,15 @@ def b_deepcopy(ex, pos, kws, st):
     raise Unsupported(f"deepcopy of {v!r}")
 
 
+def b_copy(ex, pos, kws, st):
+    (v,) = pos
+    if ex.hint_of(v, st) == "PathHolder":
+        _trust(ex, "copy.copy(PathHolder) shares the underlying operator list (th.PathHolder.__copy__): "
+                   "modelled as an alias of the same heap cell")
+        return [(st, v)]
+    raise Unsupported(f"copy of {v!r}")
+
+
 def b_isclose(ex, pos, kws, st):
     a, b = pos
     za, zb = ex.term(a, st), ex.term(b, st)
@@ -325,8 +334,15 @@ def b_float(ex, pos, kws, st):
     return out
 
 
+fmt_path = z3.Function("fmt_path", M.S, M.SeqObj, M.S)     # str(PathHolder(name, keys))
+
+
 def b_str(ex, pos, kws, st):
     (v,) = pos
+    if ex.hint_of(v, st) == "PathHolder":
+        z = ex.term(v, st)
+        _trust(ex, "str(PathHolder) is a function of its name and operator sequence (fmt_path)")
+        return [(st, T(M.StrV(fmt_path(M.sval(M.attr("pname")(z)), z3.Select(st.ph, z))), "str"))]
     return [(st, T(M.StrV(ex.to_text(v, st, "s")), "str"))]
 
 
@@ -535,7 +551,9 @@ def b_dict_get(ex, recv, pos, kws, st):
     d = ex.dict_snap(recv, st)
     k = ex.term(pos[0], st)
     default = ex.term(pos[1], st) if len(pos) > 1 else M.NoneV
-    return [(st, T(z3.If(M.has(d, k), M.dget(d, k), default), None))]
+    r = M.fresh("get")      # named: ite terms may not occur inside quantifier patterns
+    st.assume(r == z3.If(M.has(d, k), M.dget(d, k), default))
+    return [(st, T(r, None))]
 
 
 def b_dict_keys(ex, recv, pos, kws, st):
@@ -694,6 +712,14 @@ def b_date_today(ex, pos, kws, st):
 # ----------------------------------------------------------------------------- construction of builtin classes
 def construct_builtin(ex, cname: str, pos, kws, kwrest, st: State, node) -> List[Tuple[State, Any]]:
     if cname == "PathHolder":
+        if len(pos) == 2 and not kws:
+            # PathHolder(name, [keys...]) as used by Formatter._format_path: content = the list
+            lst = ex.seq_snap(pos[1], st)
+            seq = M.seq_of_list(lst)
+            ex.used_assumptions.add("builtin: th.PathHolder(name, ops) holds exactly the given operators")
+            p_ = ex.alloc_path(st, seq)
+            st.assume(M.attr("pname")(p_.z) == ex.term(pos[0], st))
+            return [(st, p_)]
         if pos or kws:
             raise Unsupported("PathHolder(root, path)")
         ex.used_assumptions.add("builtin: th.PathHolder() is an empty path")
